@@ -1,6 +1,7 @@
 """C17 - requested TLS is never silently downgraded."""
+import re
 from facts import walk, callee_of, call_args, loc
-import hirq, anchors, absx, sem
+import hirq, anchors, absx, sem, cone, engine
 
 EXPLANATION = ("All paths of the TCP connection constructor are enumerated (path-sensitive abstract evaluation of its typed HIR): W1 every "
                "path that returns Ok for an `ldaps` URL, or for an `ldap` URL with StartTLS requested, has obtained Ok from the TLS "
@@ -8,7 +9,7 @@ EXPLANATION = ("All paths of the TCP connection constructor are enumerated (path
                "Ok paths without TLS are those for `ldap` without StartTLS; W2 on StartTLS paths exactly one LDAP operation is issued "
                "before the handshake - extended(StartTLS) - the driver turn's result and `success()?` of the response are both required "
                "(Ok) before into_parts / the handshake, `ldaps` paths issue no LDAP operation before the handshake, and the handle is not "
-               "cloned; W3 the transport the connection ends up with is read as what it is built from, whichever constructor spells it (Framed::new, Decoder::framed, FramedParts::new + Framed::from_parts, each modelled after tokio_util): it runs over the stream the handshake returned, the handshake ran on the socket taken out of the cleartext transport, the codec is the cleartext transport's, and its read and write buffers start empty - a buffer of the cleartext transport carried over (assigned into the new parts, or the old parts reused) would have cleartext bytes decoded inside the protected session; of the old transport's parts only io and codec flow anywhere; a transport is rebuilt from parts nowhere else; W4 the request to skip certificate verification is the public call set_no_tls_verify(true). How the settings struct keeps its requests is not read: the reachable states of the struct are enumerated by evaluating the constructors and every builder method on literals (exhaustively; bit operations exact), and each setting is read where it takes effect - StartTLS through the public getter, the verification setting in the default connector / configuration of the handshake helper. In every reachable state: set_no_tls_verify(v) makes the setting read v; every body that builds a settings value (new, the Default impl - derived or hand-written -, Clone) yields 'not requested'; the default connector / configuration disables verification exactly when the last set_no_tls_verify on the way there said true, is built from the connection's own settings, a caller-supplied connector is used as given, and the handshake is given the URL's host name; W5/W7/W8 the settings' Clone keeps, and the starttls() getter returns, what the setters recorded, in every reachable state (a setting that is a bool field of its own and one that is a bit of a flags byte are the same to these rules). Not decided: what native-tls / rustls verify (trusted); server behaviours as runtime events.")
+               "cloned; W2.nothing-else-in-clear on EVERY path on which TLS is called for - those that end in Err or in a panic included (StartTLS refused, exchange or handshake failed) - while the transport is still the cleartext socket (everything before the call of the handshake helper) the values through which bytes reach the socket are anchored by type (handle, connection, framed transport and its parts, transport enum, TCP stream) and every call handed one of them, on the path or in a future it spawns (tokio::spawn of an async block is followed: its body runs from the state at the spawn), is one of: one extended(StartTLS) on the handle, a handle method from which the operation issue point is not reachable in the MIR call graph, one run of the driver loop in a mode of its own (not the mode of the public drive(); called as such or through a function that does exactly that), into_parts of the transport, the constructor of the connection pair, drop - so an unbind / bind / abandon on the refusal path, the full driver spawned on the cleartext connection, or a write to the socket is reported, and `drop(ldap); drop(conn); return Err(e)` is what `?` does anyway; W3 the transport the connection ends up with is read as what it is built from, whichever constructor spells it (Framed::new, Decoder::framed, FramedParts::new + Framed::from_parts, each modelled after tokio_util): it runs over the stream the handshake returned, the handshake ran on the socket taken out of the cleartext transport, the codec is the cleartext transport's, and its read and write buffers start empty - a buffer of the cleartext transport carried over (assigned into the new parts, or the old parts reused) would have cleartext bytes decoded inside the protected session; of the old transport's parts only io and codec flow anywhere; a transport is rebuilt from parts nowhere else; W4 the request to skip certificate verification is the public call set_no_tls_verify(true). How the settings struct keeps its requests is not read: the reachable states of the struct are enumerated by evaluating the constructors and every builder method on literals (exhaustively; bit operations exact), and each setting is read where it takes effect - StartTLS through the public getter, the verification setting in the default connector / configuration of the handshake helper. In every reachable state: set_no_tls_verify(v) makes the setting read v; every body that builds a settings value (new, the Default impl - derived or hand-written -, Clone) yields 'not requested'; the default connector / configuration disables verification exactly when the last set_no_tls_verify on the way there said true, is built from the connection's own settings, a caller-supplied connector is used as given, and the handshake is given the URL's host name; W5/W7/W8 the settings' Clone keeps, and the starttls() getter returns, what the setters recorded, in every reachable state (a setting that is a bool field of its own and one that is a bit of a flags byte are the same to these rules). Not decided: what native-tls / rustls verify (trusted); server behaviours as runtime events.")
 TRUSTED = ['native-tls / rustls certificate and host name verification', 'tokio_util Framed::into_parts / Framed::new / Framed::from_parts / FramedParts::new / Decoder::framed behave as modelled in transport_of (read from tokio-util 0.7 source)']
 UNDECIDED = ['TLS library behaviour', 'server behaviour at run time']
 ASSUMPTIONS = []
@@ -36,6 +37,205 @@ def starttls_of(o):
 def calls(o, suffix):
     return [(i, e) for i, e in enumerate(o.st.ev) if e[0] == 'call' and e[1].endswith(suffix)]
 
+
+# ---- W2, every path: what happens to the handle, the connection and the socket while the transport is still cleartext
+
+def spawned_future(followed):
+    """Model of `tokio::spawn(fut)` (task::spawn, spawn_local, Runtime / Handle::spawn) for a future written in place (`async move
+    { .. }`, a closure term of this body): the future's body runs, concurrently, from the state at the spawn - what an `async move`
+    block captures are the values its variables hold when it is created, and it is created at the call.  The events of its body
+    (one list per enumerated path of the body) are recorded on the spawning path as one ('spawned', closure, paths) event; its
+    effects on the spawner's places are not kept (it owns what it captured).  Nothing else is assumed about scheduling: the rules
+    that read the event treat the body's calls as possible at any time after the spawn."""
+    def summary(I, cal, args, node, st):
+        if not (cal.startswith('tokio::') and cal.rsplit('::', 1)[-1] in ('spawn', 'spawn_local')) or not args or args[-1][0] != 'closure':
+            return None
+        fut = args[-1]
+        if I.closure_node(fut) is None:
+            return None
+        followed.add(fut[1])
+        paths = tuple(tuple(o.st.ev[len(st.ev):]) for o in I.apply_closure(fut, [], st, node))
+        t = ('call', cal, tuple(args), node.get('id'))
+        return [absx.Out('val', t, st.event(('call', cal, tuple(args), node)).event(('spawned', fut[1], paths)))]
+    return summary
+
+def arg_types(node):
+    """the types of the expressions a call site hands to its callee (receiver first), references stripped"""
+    xs = ([node['recv']] if node.get('recv') is not None else []) + list(node.get('args') or [])
+    return [hirq.strip_refs(x.get('ty') or '') for x in xs]
+
+def check_cleartext_phase(ctx, f, B, outs, followed):
+    """W2.nothing-else-in-clear - "no LDAP message other than the StartTLS request itself is ever sent in cleartext", on EVERY path
+    of the TCP constructor on which TLS is called for (ldaps, or ldap with StartTLS requested), the paths that end in Err or in a
+    panic included: a refused StartTLS, a failed exchange, a failed handshake all leave the function with a cleartext socket in
+    hand, and what is done with it before it is dropped is on the wire in clear.
+
+    The cleartext phase of a path is everything before the call of the handshake helper (from then on the socket belongs to the TLS
+    stream; what the protected transport is built from is W3's), the whole path when the handshake is never reached.  In it the
+    values through which bytes can reach the socket are anchored by TYPE - the handle struct, the driver struct (anchors.Conn: by
+    role), the framed transport and its parts, the transport enum, the TCP stream - and every call that is handed one of them, on
+    the path itself or in a future it spawns (spawned_future), must be one of:
+      * the handle: ONE `extended(StartTLS)` (none for ldaps); a method from which the operation issue point (anchors.Conn:
+        the body that sends on the request channel) is not reachable in the MIR call graph; `drop`.  Every other method of the
+        handle that reaches the issue point - unbind, simple_bind, abandon, extended(anything else) .. - is an LDAPMessage written
+        to the cleartext stream, whatever is returned to the caller afterwards;
+      * the connection: ONE run of the one-operation driver (the function that takes the connection and the oneshot sender it is
+        handed back through - the turn that carries the StartTLS exchange; none for ldaps), `drop`.  Driving it any other way
+        (`drive()`, the loop function itself, a second one-operation turn after the exchange) serves whatever is - or will be -
+        queued on the request channel, in clear;
+      * the framed transport: `into_parts` (taking it apart for the handshake), `drop`; its parts, the transport enum, the socket:
+        the constructor of the connection pair, `drop` - anything else (`send`, `write_all`, ..) writes to the cleartext socket.
+    A closure of the body that mentions one of these values and is not a future the spawn model followed is not decided (fails
+    closed).  `drop(ldap); drop(conn); return Err(e)` is what `?` does implicitly and is accepted."""
+    C = anchors.Conn(f)
+    HANDLE, DRIVER = C.handle_struct, C.driver_struct
+    G = cone.Graph(f, engine.REPO)
+    issue = {C.op_call_path, C.op_call_path + '::{closure#0}'}
+    reach = {}
+    def issues_message(cal):
+        if cal not in reach:
+            reach[cal] = bool(issue & set(G.cone([p for p in (cal, cal + '::{closure#0}') if p in f.mir] or [cal])))
+        return reach[cal]
+    has_tls = 'ldap3::conn::LdapConnAsync::create_tls_stream' in f.hir
+    # "the one turn of the driver that carries the StartTLS exchange", by role: a run of the driver loop (anchors.Conn: the body that
+    # receives from the request channel) in a mode of its own - not the mode of the public `drive()`, which serves the request
+    # channel until the last handle is gone - either called as such or through a workspace function that, on every one of its
+    # paths, does exactly that with the connection it is given (what the one-operation mode does with the connection when its
+    # loop ends is C04 L6's)
+    kind_of = lambda t: ('handle' if t == HANDLE else 'connection' if t == DRIVER
+                         else 'framed transport' if re.match(r'tokio_util::codec::framed::Framed(Parts)?<ldap3::conn::ConnType\b', t) else 'transport' if t == 'ldap3::conn::ConnType'
+                         else 'socket' if t == 'tokio::net::tcp::stream::TcpStream' else None)
+    LOOP = C.loop_path.split('::{closure')[0]
+    DROP = ('core::mem::drop',)
+    memo = {}
+    def loop_modes(p):
+        if p not in memo:
+            memo[p] = None
+            Bp = hirq.Body(f, f.body(p))
+            ctx.analysed['bodies'].add(p)
+            ms = []
+            for o in absx.Interp(f, Bp, unroll=1, combinators=True).run(root=Bp.root['body'] if Bp.root['k'] == 'Closure' else Bp.root):
+                used = [e for e in o.st.ev if e[0] == 'call' and e[1] not in DROP and any(kind_of(t) == 'connection' for t in arg_types(e[3]))]
+                ms.append(tuple(e[2][1] if e[1] == LOOP and len(e[2]) == 2 and e[2][0] == ('param', 'self') else ('unk', e[1]) for e in used))
+            memo[p] = ms
+        return memo[p]
+    pub = [p for p in (DRIVER + '::drive',) if p in f.hir]
+    ctx.add('W2.continuous-mode', DRIVER + '::drive', loc(B.root), len(pub) == 1, 'the public drive() of the connection was not found: anchor lost')
+    cont = {m for p in pub for path in (loop_modes(p) or []) for m in path}
+    own_mode = lambda m: m[0] == 'ctor' and not m[2] and m not in cont
+    def one_turn(cal, args):
+        """None when the call is a run of the driver loop in a mode of its own, else what it is instead"""
+        if not cont:
+            return 'the mode of drive() is not known'
+        if cal == LOOP:
+            return None if len(args) == 2 and own_mode(args[1]) else 'the driver loop is run in the mode %s, the one drive() uses' % absx.fmt(args[1] if len(args) == 2 else ('unk',))
+        if cal in f.hir and cal not in pub and (f.items.get(cal) or {}).get('inputs', [None])[0] == DRIVER:
+            ms = loop_modes(cal)
+            if ms and all(len(path) == 1 and own_mode(path[0]) for path in ms):
+                return None
+            return '`%s` does not run the driver loop exactly once in a mode of its own (%s; drive() uses %s)' % (
+                cal.rsplit('::', 1)[-1], sorted({absx.fmt(m) for path in ms or [] for m in path}) or 'no run of the loop', sorted(absx.fmt(m) for m in cont))
+        return 'the driver serves the request channel over the cleartext TCP stream beyond the one turn that carries the StartTLS exchange'
+    def components(t):
+        """the direct components of a tuple type / the type argument of a one-argument owning wrapper"""
+        if t.startswith('(') and t.endswith(')'):
+            inner = t[1:-1]
+        elif t.split('<', 1)[0] in ('core::option::Option', 'alloc::boxed::Box', 'alloc::sync::Arc', 'alloc::vec::Vec', 'std::sync::mutex::Mutex') and t.endswith('>'):
+            inner = t.split('<', 1)[1][:-1]
+        else:
+            return []
+        out, depth, cur = [], 0, ''
+        for ch in inner:
+            if ch in '(<[':
+                depth += 1
+            elif ch in ')>]':
+                depth -= 1
+            if ch == ',' and depth == 0:
+                out.append(cur.strip()); cur = ''
+            else:
+                cur += ch
+        return [x for x in out + [cur.strip()] if x]
+    def sensitive(t, depth=0):
+        k = kind_of(t)
+        if k is None and depth < 3:
+            k = next((x for x in (sensitive(hirq.strip_refs(c), depth + 1) for c in components(t)) if x), None)
+        return k
+    STARTTLS = (('ctor', 'starttls::StartTLS', ()), ('const', 'ldap3::exop_impl::starttls::StartTLS'))
+    n = 0
+    for o in outs:
+        sch, stls = scheme_of(o), starttls_of(o)
+        if not (sch == 'ldaps' or (sch == 'ldap' and stls is True)):
+            continue
+        n += 1
+        hs = next((i for i, e in enumerate(o.st.ev) if e[0] == 'call' and e[1].endswith('LdapConnAsync::create_tls_stream')), len(o.st.ev))
+        # the stage the path is in when it ends, for the message
+        suc = next((t for a, t in o.st.pc if a[0] == 'is' and a[2] == 'Ok' and a[1][0] == 'call' and a[1][1].endswith('ExopResult::success')), None)
+        stage = ('after the server refused StartTLS' if suc is False else 'before the handshake' if hs < len(o.st.ev) else
+                 'on a path that ends (%s) before a handshake' % ('Err' if o.kind == 'ret' else 'panic' if o.kind == 'div' else 'Ok'))
+        key = '%s|starttls=%s|%s' % (sch, stls, stage)
+        flat = []       # (event, where)
+        for e in o.st.ev[:hs]:
+            if e[0] == 'call':
+                flat.append((e, ''))
+            elif e[0] == 'spawned':
+                seen = set()
+                for p in e[2]:
+                    for x in p:
+                        if x[0] == 'call' and id(x[3]) not in seen:
+                            seen.add(id(x[3]))
+                            flat.append((x, ' in a spawned task'))
+                        elif x[0] == 'spawned':
+                            flat.append((('call', '<a task spawned by a spawned task>', (), {}), ' in a spawned task'))
+        bad, n_start, n_single = [], 0, 0
+        for e, where in flat:
+            cal, node = e[1], e[3]
+            kinds = [k for k in (sensitive(t) for t in arg_types(node)) if k]
+            if cal == '<a task spawned by a spawned task>':
+                bad.append('a task spawns a further task: not followed')
+                continue
+            if not kinds or cal in DROP:
+                continue
+            k = kinds[0]
+            nm = cal.rsplit('::', 1)[-1]
+            if k == 'handle':
+                if cal.startswith(HANDLE + '::') and not issues_message(cal) and not cal.endswith('::clone'):
+                    continue            # (the issue point is not reachable from it: no message)
+                if cal == HANDLE + '::extended' and len(e[2]) == 2 and e[2][1] in STARTTLS:
+                    n_start += 1
+                    if n_start > 1 or sch == 'ldaps':
+                        bad.append('a%s StartTLS request is issued%s' % (' second' if n_start > 1 else '', where))
+                    continue
+                bad.append('`%s` is called on the handle%s: %s' % (nm, where, 'an LDAPMessage other than the StartTLS request is sent on the cleartext TCP stream' if cal.startswith(HANDLE + '::') and issues_message(cal) else
+                           'the handle is handed to a function the analysis does not follow while the transport is cleartext'))
+            elif k == 'connection':
+                why = one_turn(cal, e[2])
+                if why is None:
+                    n_single += 1
+                    if n_single > 1 or sch == 'ldaps':
+                        bad.append('the one-operation driver is run %s%s' % ('a second time' if n_single > 1 else 'on an ldaps connection before the handshake', where))
+                    continue
+                bad.append('the connection is given to `%s`%s: %s' % (nm, where, why))
+            elif k == 'framed transport' and nm == 'into_parts':
+                continue
+            elif k in ('transport', 'socket') and cal.endswith('LdapConnAsync::conn_pair') and not where:
+                continue
+            else:
+                bad.append('the %s is given to `%s`%s while it is still the cleartext TCP stream' % (k, nm, where))
+        if sch == 'ldap' and o.kind in ('val', 'ret') and o.val[0] == 'ctor' and o.val[1] == 'Ok':
+            ctx.add('W2.one-operation-driver', key, loc(B.root), n_single == 1 and n_start == 1,
+                    'a connection is handed back for ldap + StartTLS on a path with %d run(s) of the one-operation driver and %d StartTLS request(s): the exchange is one request served by one turn' % (n_single, n_start))
+        ctx.add('W2.nothing-else-in-clear', key, loc(B.root), not bad,
+                '%s URL%s, %s: %s - "no LDAP message other than the StartTLS request itself is ever sent in cleartext" holds on the paths that fail too (the error still reaches the caller, but what was written is on the wire)' % (
+                    sch, ' with StartTLS requested' if sch == 'ldap' else '', stage, '; '.join(dict.fromkeys(bad))))
+    ctx.floor('W2.clear', 'paths of the TCP constructor on which TLS is called for (Ok, Err and panic)', n, 20 if has_tls else 0)
+    # closures that hold one of these values and were not followed
+    root = B.root
+    for nd in B.nodes:
+        if nd['k'] != 'Closure' or nd is root or nd.get('def') in followed:
+            continue
+        held = sorted({sensitive(hirq.strip_refs(x.get('ty') or '')) for x, _c in walk(nd['body']) if x['k'] == 'Path' and x.get('res') == 'local'} - {None})
+        ctx.add('W2.clear-phase-closures-followed', nd.get('def', '?').split('new_tcp')[-1], loc(nd), not held,
+                'a closure of the TCP constructor holds the %s and is not a future handed to tokio::spawn in place: what it does with it while the transport is cleartext is not decided' % ', '.join(held))
 
 FRESH = ('fresh-buffer',)
 FRAMED_FRESH = {'tokio_util::codec::framed::Framed::<T, U>::new': (0, 1), 'tokio_util::codec::framed::Framed::<T, U>::with_capacity': (0, 1), 'tokio_util::codec::decoder::Decoder::framed': (1, 0)}
@@ -122,9 +322,11 @@ def run(ctx):
     R = anchors.ConnSettings(f)
     # (R.algebra: what `settings.starttls()` answers after `settings = settings.set_starttls(false)` - or after any other builder call -
     # is decided by the meaning of the builder interface, established by W7 / W9, not by where in the function the test sits)
-    outs = absx.Interp(f, B, unroll=1, combinators=True, summaries=[R.algebra]).run(root=B.root['body'] if B.root['k'] == 'Closure' else B.root)
+    followed = set()
+    outs = absx.Interp(f, B, unroll=1, combinators=True, summaries=[R.algebra, spawned_future(followed)]).run(root=B.root['body'] if B.root['k'] == 'Closure' else B.root)
     oks = [o for o in outs if o.kind in ('val', 'ret') and o.val[0] == 'ctor' and o.val[1] == 'Ok']
     ctx.floor('W1', 'Ok-returning paths of the TCP constructor', len(oks), 3)
+    check_cleartext_phase(ctx, f, B, outs, followed)
     urls = sem.params_of_type(f, B, lambda t: t == 'url::Url')
     ctx.add('W4.url-parameter', NT, loc(B.root), len(urls) == 1, 'the TCP constructor has no single parameter of type &Url: anchor lost')
     URL = ('param', urls[0] if urls else 'url')
